@@ -59,9 +59,9 @@ def fault_vectors(thorough: bool):
     return out
 
 
-def scenarios(thorough: bool):
+def scenarios(thorough: bool, more_valid=()):
     out = []
-    pairs = PAIRS + (EXTRA_PAIRS if thorough else EXTRA_PAIRS[:2])
+    pairs = list(dict.fromkeys(PAIRS + list(more_valid) + (EXTRA_PAIRS if thorough else EXTRA_PAIRS[:2])))
     for i, fv in enumerate(fault_vectors(thorough)):
         for j, script in enumerate(SCRIPTS):
             for k, (pl, b) in enumerate(pairs):
@@ -243,7 +243,12 @@ def run(ctx: C.Ctx):
             pass
     reg = C.run_impl("c13_impl.py", {"cases": [["registry"]]})[0]
     plats = reg["platforms"]
-    cases = scenarios(thorough)
+    # more valid pairs straight from the registry: first / middle / last board of every platform
+    more_valid = []
+    for pl, bs in sorted(plats.items()):
+        bs = sorted(bs)
+        more_valid += [(pl, bs[0]), (pl, bs[len(bs) // 2]), (pl, bs[-1])] if bs else []
+    cases = scenarios(thorough, more_valid if thorough else more_valid[1::3])
     expected, results = run_impl_cases(cases, workers=12 if thorough else 8)
     by_key = {sc_key(sc): r for sc, r in zip(cases, results)}
 
